@@ -2,7 +2,7 @@
    Model: Util/Diff.v (lcs with prefix/suffix trimming, trace, Myers' middle snake with the shared buffer,
    chunk merging, LineDiff's hunks).  Only statements, examples and Print Assumptions here. *)
 From Coq Require Import List ZArith Bool.
-From TM Require Import Util.Diff Util.Diff_proofs Util.Diff_lcs Util.Diff_dist Util.Diff_greedy Util.Diff_min Util.Diff_myers.
+From TM Require Import Util.Diff Util.Diff_proofs Util.Diff_lcs Util.Diff_dist Util.Diff_greedy Util.Diff_min Util.Diff_myers Util.Diff_total.
 Import ListNotations.
 Local Open Scope Z_scope.
 
@@ -82,10 +82,59 @@ Theorem C27_L_is_longest_common_subsequence :
               (forall s, Sub s a -> Sub s b -> zlen s <= L a b).
 Proof. exact L_is_lcs. Qed.
 
-(* Still NOT proved: totality of trace/lcs, i.e. that lcs never returns LcsFatal / LcsFuel.  middle always
-   finds a snake (above); missing is that its coordinates always pass trace's slice-bounds and
-   "no snake" (no-progress) checks, and trace's fuel arithmetic.  The check compares the model's result
-   (including these outcomes) with the implementation on every generated pair. *)
+(* ---------- totality: log.Fatal / slice-bounds failures of trace and middle are unreachable ---------- *)
+(* diff.go states the precondition of trace in a comment: "a and b don't have a common prefix or suffix".
+   NoCommon a b: if both are non-empty, their first elements differ and their last elements differ. *)
+
+(* The split (ai, bi, snake) that middle returns on such sequences of length >= 2 (Good): it lies inside the
+   grid (0 <= ai, 0 <= bi, 0 <= snake, ai+snake <= |a|, bi+snake <= |b|: the slices a[:ai], a[ai+snake:], ...
+   never panic), it is neither (0,0) nor (|a|,|b|) (the "no snake" log.Fatalf of trace is unreachable), and
+   both a[:ai], b[:bi] and a[ai+snake:], b[bi+snake:] again have no common first / last element, so the
+   precondition is an invariant of the recursion although trace itself never strips anything. *)
+Theorem C27_middle_split_in_grid_progress_invariant :
+  forall a b buf ai bi s buf', 2 <= zlen a -> 2 <= zlen b -> 2 * (zlen a + zlen b + 2) <= zlen buf ->
+  NoCommon a b -> middle a b buf = MidFound ai bi s buf' ->
+  zlen buf' = zlen buf /\
+  (0 <= ai /\ 0 <= bi /\ 0 <= s /\ ai + s <= zlen a /\ bi + s <= zlen b /\
+   ~ (ai = 0 /\ bi = 0) /\ ~ (ai = zlen a /\ bi = zlen b) /\
+   (1 <= ai -> 1 <= bi -> elt a (ai - 1) <> elt b (bi - 1)) /\
+   (ai + s < zlen a -> bi + s < zlen b -> elt a (ai + s) <> elt b (bi + s))).
+Proof. exact middle_good. Qed.
+
+(* trace is total under its documented precondition: fuel > |a|+|b| (each recursive call strictly decreases
+   |a|+|b|) and the buffer lcs allocates suffice for every nested call. *)
+Theorem C27_trace_total :
+  forall fuel a b buf chunks,
+  zlen a + zlen b < Z.of_nat fuel -> 2 * (zlen a + zlen b + 2) <= zlen buf -> NoCommon a b ->
+  exists ret buf', trace middle fuel a b buf chunks = TraceOk ret buf' /\ zlen buf' = zlen buf.
+Proof. exact trace_total. Qed.
+
+(* what lcs passes to trace after trimming the common prefix and suffix satisfies the precondition *)
+Theorem C27_lcs_establishes_trace_precondition :
+  forall a b,
+  let p := common_prefix a b in
+  let ln := (Nat.min (length a) (length b) - p)%nat in
+  let s := Nat.min ln (common_prefix (rev a) (rev b)) in
+  NoCommon (firstn (length a - p - s) (skipn p a)) (firstn (length b - p - s) (skipn p b)).
+Proof. exact trimmed_NoCommon. Qed.
+
+(* lcs is total: for EVERY pair of sequences the model returns a script, never LcsFatal / LcsFuel. *)
+Theorem C27_lcs_total : forall a b, exists chunks, lcs a b = LcsOk chunks.
+Proof. exact lcs_total. Qed.
+
+(* ... hence, unconditionally: lcs returns a valid script of minimum cost |a|+|b|-2*LCS(a,b). *)
+Theorem C27_script_minimal_total :
+  forall a b, exists chunks, lcs a b = LcsOk chunks /\ script_ok chunks a b = true /\
+    cost chunks = zlen a + zlen b - 2 * L a b /\
+    forall chunks', script_ok chunks' a b = true -> cost chunks <= cost chunks'.
+Proof. exact script_minimal_total. Qed.
+
+(* LineDiff on different texts always renders the hunks of such a script (its fallback branch is dead). *)
+Theorem C27_line_diff_renders_the_lcs_script :
+  forall a b, a <> b ->
+  exists chunks, lcs a b = LcsOk chunks /\ script_ok chunks a b = true /\
+    line_diff a b = Some (diff_loop chunks true a b 0 0 (mkHunk 1 1 0 0 []) []).
+Proof. exact line_diff_total. Qed.
 
 (* The rendered diff is empty exactly when the texts are equal. *)
 Theorem C27_render_empty_iff_equal : forall a b, line_diff a b = None <-> a = b.
@@ -117,3 +166,9 @@ Print Assumptions C27_middle_always_finds_a_snake.
 Print Assumptions C27_lcs_minimal_for_any_optimal_middle.
 Print Assumptions C27_forward_furthest_reaching.
 Print Assumptions C27_L_is_longest_common_subsequence.
+Print Assumptions C27_middle_split_in_grid_progress_invariant.
+Print Assumptions C27_trace_total.
+Print Assumptions C27_lcs_establishes_trace_precondition.
+Print Assumptions C27_lcs_total.
+Print Assumptions C27_script_minimal_total.
+Print Assumptions C27_line_diff_renders_the_lcs_script.
